@@ -604,3 +604,56 @@ Proof.
       apply andb_true_iff in Hdom as [_ Hdom]. destruct code; try discriminate Hc; exact Hdom.
     + rewrite Hbad by (intros; discriminate). destruct k; reflexivity.
 Qed.
+
+(* ------------------------------------------------------------------ error codes of call insns *)
+
+(* what MIR_new_insn_arr reports for call / inline / jcall: too few operands to hold prototype and
+   address -> MIR_ops_num_error; first operand not a prototype reference, or operand count not
+   matching the prototype (more allowed only for vararg prototypes) -> MIR_call_op_error; any
+   block-argument rule broken -> MIR_wrong_type_error; nothing else *)
+Lemma call_error_codes_lemma unspec code ops : is_call code = true ->
+  (length ops < 2 -> check_new_insn unspec code ops = Err E_ops_num)
+  /\ (2 <= length ops -> (forall p, nth_op ops 0 <> ORef I_proto (Some p)) ->
+      check_new_insn unspec code ops = Err E_call_op)
+  /\ (forall p, 2 <= length ops -> nth_op ops 0 = ORef I_proto (Some p) ->
+      let n := length (p_res p) + length (p_args p) + 2 in
+      (length ops < n \/ (length ops <> n /\ p_vararg p = false) ->
+         check_new_insn unspec code ops = Err E_call_op)
+      /\ (n <= length ops -> (length ops = n \/ p_vararg p = true) ->
+          forall e, check_new_insn unspec code ops = Err e -> e = E_wrong_type)).
+Proof.
+  intros Hc. split; [|split].
+  - intros Hl. assert ((length ops <? 2) = true) as E by (apply Nat.ltb_lt; lia).
+    destruct code; try discriminate Hc; unfold check_new_insn; cbn [call_code_p negb andb]; rewrite E; reflexivity.
+  - intros Hl Hno. assert ((length ops <? 2) = false) as E by (apply Nat.ltb_ge; lia).
+    destruct code; try discriminate Hc; unfold check_new_insn; cbn [call_code_p negb andb]; rewrite E;
+      (destruct (nth_op ops 0) as [| | | | | | | |k [pp|]|] eqn:E0; try reflexivity;
+       destruct k; try reflexivity; exfalso; apply (Hno pp); reflexivity).
+  - intros p Hl H0. assert ((length ops <? 2) = false) as E by (apply Nat.ltb_ge; lia).
+    cbv zeta. split.
+    + intros Hcnt.
+      assert ((length ops <? length (p_res p) + length (p_args p) + 2)
+              || negb (length ops =? length (p_res p) + length (p_args p) + 2) && negb (p_vararg p) = true) as Ec.
+      { destruct Hcnt as [Hlt|[Hne Hva]].
+        - apply orb_true_iff; left. apply Nat.ltb_lt. lia.
+        - apply orb_true_iff; right. rewrite Hva. apply andb_true_iff. split; [|reflexivity].
+          apply negb_true_iff. apply Nat.eqb_neq. lia. }
+      destruct code; try discriminate Hc; unfold check_new_insn; cbn [call_code_p negb andb];
+        rewrite E, H0; cbn [bind]; rewrite Ec; reflexivity.
+    + intros Hge Heq e He.
+      assert ((length ops <? length (p_res p) + length (p_args p) + 2)
+              || negb (length ops =? length (p_res p) + length (p_args p) + 2) && negb (p_vararg p) = false) as Ec.
+      { apply orb_false_iff. split; [apply Nat.ltb_ge; lia|].
+        destruct Heq as [Heq|Hva]; [|rewrite Hva; apply andb_false_r].
+        apply andb_false_iff; left. apply negb_false_iff. apply Nat.eqb_eq. lia. }
+      assert (forall k rest e', check_blk_args p k rest = Err e' -> e' = E_wrong_type) as Hblk.
+      { intros k rest. revert k. induction rest as [|o rest IH]; intros k e' Hb; [discriminate|].
+        cbn [check_blk_args] in Hb. destruct (blk_here p k o) as [[]|e1] eqn:Eh; cbn [bind] in Hb.
+        - eapply IH; eauto.
+        - inversion Hb; subst e1. unfold blk_here in Eh.
+          repeat match type of Eh with
+                 | context [match ?x with _ => _ end] => destruct x; try discriminate Eh
+                 end; inversion Eh; reflexivity. }
+      destruct code; try discriminate Hc; unfold check_new_insn in He; cbn [call_code_p negb andb] in He;
+        rewrite E, H0 in He; cbn [bind] in He; rewrite Ec in He; eapply Hblk; eauto.
+Qed.
